@@ -198,6 +198,38 @@ Fixpoint ref_scan (inq : bool) (s : str) : str * bool * option (list str) :=
 Definition split_ref (s : str) : list str :=
   let '(w, has, r) := ref_scan false s in close_words w has r.
 
+(* The class of command lines the property quantifies over: "words separated by SINGLE spaces with
+   double-quoted segments and escaped quotes inside them".  Process.hpp documents only "the first word ..
+   further words": what a leading, trailing or doubled unquoted space or an unterminated quote means is not
+   said anywhere.  On a line of the class the words are [split_ref]; outside it the property does not say
+   (the oracle of the check prints a wildcard there - [split_seen] - while the model keeps the code's answer,
+   which [split_ref] happens to follow as well: splitter_refines_reference is about every line).
+   after_space: at the beginning of the line or directly behind a separating space. *)
+Fixpoint class_scan (inq after_space : bool) (s : str) : bool :=
+  match s with
+  | [] => negb inq && negb after_space
+  | c :: t =>
+    if inq then
+      if c =? ch_quote then class_scan false false t
+      else if c =? ch_bslash then
+        match t with
+        | q :: t' => if q =? ch_quote then class_scan true false t' else class_scan true false t
+        | [] => false
+        end
+      else class_scan true false t
+    else
+      if c =? ch_quote then class_scan true false t
+      else if c =? ch_space then (if after_space then false else class_scan false true t)
+      else class_scan false false t
+  end.
+
+Definition in_class (s : str) : bool :=
+  match s with [] => true | _ => class_scan false true s end.
+
+(* what the property says about the words of a command line: Some words on the class, nothing outside *)
+Definition split_seen (s : str) : option (list str) :=
+  if in_class s then Some (split_ref s) else None.
+
 (* the inverse direction, used to validate the reference itself: quote every word *)
 Fixpoint quote_body (w : str) : str :=
   match w with
